@@ -32,8 +32,8 @@ func (c16) Rule() string {
 		"seeded: lengths biased to multiples of 10/60 +-1 up to 3000 (quick) / 20000 (thorough), residues drawn from a random subset of 33..126, positive or one random malformation (length deltas 1..70). " +
 		"Oracle (closed-form layout model): NewOrigin(p).String() == model block; len == toOriginLength(n) == 10*ceil(n/60)+ceil(n/10)+n; fromOriginLength(len) == n; Len() == n before and after Bytes(); Bytes() == p; " +
 		"an undecoded Origin over the model block has Len() == n and Bytes() == p; the fast validator accepts the LF block, the slow parser accepts the LF block and its CRLF twin and the Origin it yields decodes to p; " +
-		"a hand-written minimal GenBank record with that ORIGIN read through seqio.NewAutoScanner gives Len == n and Bytes == p for LF and CRLF; malformed twins: both paths must reject and nothing may panic (the scanner is only watched for panics on them). " +
-		"non-trivial: at least one residue (n >= 1) or a length-function range; distinct: canonical case text (kind, n, alphabet, sub-seed, malformation parameters)."
+		"a hand-written minimal GenBank record with that ORIGIN read through seqio.NewAutoScanner gives Len == n and Bytes == p for LF and CRLF; malformed twins: both paths must reject and nothing may panic (the scanner is only watched for panics on them); a twin whose declared length ends at a line end with whole surplus lines after it (an intact block for the block readers) is read as a record with LF and with CRLF line ends: both must be rejected, or both read with the same residues. " +
+		"index widths: NewOrigin of 10^(w-1)+81 residues for w = 5..9 must equal the model block byte for byte, report Len() == n and decode to the residues. streams: 2..4 hand-written records (LF: fast path, CRLF: slow path) scanned to the end first, then every record decoded: Len() and Bytes() of each must be its own. non-trivial: at least one residue (n >= 1) or a length-function range; distinct: canonical case text (kind, n, alphabet, sub-seed, malformation parameters)."
 }
 
 func (c16) Assumptions() []string {
@@ -79,7 +79,7 @@ func (c16) RequiredBuckets(tier string) []string {
 	for _, b := range c16BadBytes {
 		out = append(out, fmt.Sprintf("badbyte|%d", b))
 	}
-	out = append(out, "sep|first-of-line", "sep|inner")
+	out = append(out, "sep|first-of-line", "sep|inner", "idxw-large|5", "idxw-large|6", "idxw-large|7", "idxw-large|8", "idxw-large|9", "stream:collected-then-decoded", "stream:slow-path", "stream:fast-path", "malformed:intact-declared-block-then-surplus-lines")
 	for b := 33; b <= 126; b++ {
 		out = append(out, fmt.Sprintf("res|%d", b))
 	}
@@ -550,7 +550,38 @@ func (m c16) negative(c *fw.Ctx, n int, alpha string, sub int64, k c16Neg) {
 		// e.g. fewer residues declared than present with the declared count a
 		// multiple of 60: the declared block is intact and followed by extra
 		// lines; what follows a block is not the block readers' business.
-		c.Skip("the malformation leaves an intact block of the declared length (trailing material only)")
+		// For the block readers alone that is trailing material. In a record,
+		// though, the block is the lines between ORIGIN and "//": the fast path
+		// (LF) and the slow path (CRLF) must agree on whether such a record is
+		// read, and on its residues.
+		c.Begin(enc)
+		c.Count(enc, true)
+		c.Bucket("malformed:intact-declared-block-then-surplus-lines")
+		type res struct {
+			n   int
+			err bool
+			b   []byte
+		}
+		var rr [2]res
+		for i, crlf := range []bool{false, true} {
+			rec := c16Record(d, blk, crlf)
+			pn, val, site, stack := fw.Guard(func() {
+				s := seqio.NewAutoScanner(bytes.NewReader(rec))
+				for s.Scan() && rr[i].n < 4 {
+					rr[i].n++
+					rr[i].b = append([]byte(nil), s.Value().Bytes()...)
+				}
+				rr[i].err = s.Err() != nil
+			})
+			if pn {
+				c.ViolateX("record:"+panicClass(site, val), enc, "no panic", fmt.Sprint(val), stack, nil)
+				return
+			}
+		}
+		if rr[0].err != rr[1].err || rr[0].n != rr[1].n || !bytes.Equal(rr[0].b, rr[1].b) {
+			c.Violate("record:fast-and-slow-path-disagree", enc, "the LF record and its CRLF twin are both rejected, or both read with the same residues",
+				fmt.Sprintf("LF: %d records error=%v %d residues; CRLF: %d records error=%v %d residues", rr[0].n, rr[0].err, len(rr[0].b), rr[1].n, rr[1].err, len(rr[1].b)))
+		}
 		return
 	}
 	c.Begin(enc)
@@ -731,6 +762,15 @@ func (m c16) sweepOne(c *fw.Ctx, n int) {
 		{kind: "missing-sep", group: (n * 31) % groups},
 		{kind: "non-printable", pos: (n * 17) % n, b: c16BadBytes[n%len(c16BadBytes)]},
 	}
+	if n%60 == 0 {
+		// whole surplus lines: the declared length ends exactly at a line end,
+		// where a validator that looks at the declared lines only would stop.
+		negs = append(negs, c16Neg{kind: "too-many", delta: n})
+		if n >= 120 {
+			negs = append(negs, c16Neg{kind: "too-many", delta: 60}, c16Neg{kind: "too-many", delta: n - 60})
+		}
+		c.Bucket("malformed:whole-surplus-lines")
+	}
 	for i, k := range negs {
 		if !c.NextShared() {
 			continue
@@ -807,6 +847,123 @@ func (m c16) Run(c *fw.Ctx) {
 			m.positive(c, n, alpha, sub)
 		} else {
 			m.negative(c, n, alpha, sub, k)
+		}
+	}
+
+	// E. every index width the 9-column index can hold: one length just past
+	// each power of ten (the sweep above reaches 4, thorough 6 digits).
+	for w := 5; w <= 9; w++ {
+		if !c.NextShared() {
+			continue
+		}
+		n := 1
+		for i := 1; i < w; i++ {
+			n *= 10
+		}
+		n += 21 + 60 // the first index of w digits, and one more line
+		enc := fmt.Sprintf("index width %d: NewOrigin of %d residues", w, n)
+		c.Begin(enc)
+		c.Count(enc, true)
+		c.Bucket(fmt.Sprintf("idxw-large|%d", w))
+		p := make([]byte, n)
+		for i := range p {
+			p[i] = "acgtnryk"[(i*7+i/61)%8]
+		}
+		want := model.OriginBlock(p)
+		var o *seqio.Origin
+		var ln int
+		var got []byte
+		pn, val, site, stack := fw.Guard(func() {
+			o = seqio.NewOrigin(append([]byte(nil), p...))
+			got = append([]byte(nil), o.Buffer...)
+			ln = o.Len()
+		})
+		if pn {
+			c.ViolateX("large:"+panicClass(site, val), enc, "no panic", fmt.Sprint(val), stack, nil)
+			continue
+		}
+		if !bytes.Equal(got, want) {
+			a, b := c16Diff(want, got)
+			c.Violate("large:layout", enc, a, b)
+			continue
+		}
+		if ln != n {
+			c.Violate("large:len", enc, fmt.Sprint(n), fmt.Sprint(ln))
+			continue
+		}
+		var dec []byte
+		if pn, val, site, stack := fw.Guard(func() { dec = o.Bytes() }); pn {
+			c.ViolateX("large:decode:"+panicClass(site, val), enc, "no panic", fmt.Sprint(val), stack, nil)
+			continue
+		}
+		if !bytes.Equal(dec, p) {
+			a, b := c16Diff(p, dec)
+			c.Violate("large:bytes", enc, a, b)
+		}
+	}
+	c.Exhaustive("index widths 5..9 (one length just past each power of ten)")
+
+	// D. streams: the records of a stream are collected first and decoded
+	// afterwards (as gts sort / gts join do); each must still hold its own
+	// residues, whichever path read it.
+	S := c.Pick(150, 1500)
+	for it := 0; it < S; it++ {
+		c.NextOwn()
+		k := 2 + r.Intn(3)
+		var want [][]byte
+		var text []byte
+		crlf := r.Intn(3) != 0
+		var lens []int
+		for i := 0; i < k; i++ {
+			n := []int{1, 9, 10, 59, 60, 61, 119, 120, 121}[r.Intn(9)]
+			if r.Intn(2) == 0 {
+				n = 1 + r.Intn(400)
+			}
+			p := c16Residues(n, fmt.Sprintf("rand%d", 4+r.Intn(90)), r.Int63())
+			want = append(want, p)
+			lens = append(lens, n)
+			text = append(text, c16Record(n, model.OriginBlock(p), crlf)...)
+		}
+		if c.Replaying() && c.Seq() != c.ReplaySeq {
+			continue
+		}
+		enc := fmt.Sprintf("stream of %d records, lengths %v, crlf=%v, decoded after the whole stream was scanned", k, lens, crlf)
+		c.Begin(enc)
+		c.Count(fmt.Sprintf("stream|%v|%v|%x", lens, crlf, want[0]), true)
+		c.Bucket("stream:collected-then-decoded")
+		if crlf {
+			c.Bucket("stream:slow-path")
+		} else {
+			c.Bucket("stream:fast-path")
+		}
+		var vals []gts.Sequence
+		var serr error
+		pn, val, site, stack := fw.Guard(func() {
+			s := seqio.NewAutoScanner(bytes.NewReader(text))
+			for s.Scan() && len(vals) < k+2 {
+				vals = append(vals, s.Value())
+			}
+			serr = s.Err()
+		})
+		if pn {
+			c.ViolateX("stream:"+panicClass(site, val), enc, "no panic", fmt.Sprint(val), stack, nil)
+			continue
+		}
+		if serr != nil || len(vals) != k {
+			c.Violate("stream:not-read", enc, fmt.Sprintf("%d records", k), fmt.Sprintf("%d records, err=%v", len(vals), serr))
+			continue
+		}
+		for i, v := range vals {
+			var got []byte
+			var ln int
+			if pn, val, site, stack := fw.Guard(func() { ln = gts.Len(v); got = v.Bytes() }); pn {
+				c.ViolateX("stream:decode:"+panicClass(site, val), enc, "no panic", fmt.Sprint(val), stack, nil)
+				break
+			}
+			if ln != len(want[i]) || !bytes.Equal(got, want[i]) {
+				c.Violate("stream:record-holds-other-residues", enc, fmt.Sprintf("record %d: %d residues %q", i+1, len(want[i]), clipS(string(want[i]), 80)), fmt.Sprintf("Len()=%d, %q", ln, clipS(string(got), 80)))
+				break
+			}
 		}
 	}
 }
